@@ -41,6 +41,8 @@ func main() {
 		os.Exit(2)
 	}
 	switch os.Args[1] {
+	case "dbg-bt":
+		checks.DebugBacktest()
 	case "dbg-sync":
 		checks.DebugSync()
 	case "list":
